@@ -29,9 +29,10 @@ C10_SCALARS = ['int', 'float', 'str', 'bool', 'none', 'Fraction', 'Decimal', 'da
 HANDLER_SPECS = [None, None, None, ['one', 'dbl_int'], ['one', 'upper_str'], ['seq', 'dbl_int', 'upper_str'],
                  ['seq', 'upper_str', 'dbl_int'], ['seq', 'defer_ni', 'dbl_int'], ['seq', 'defer_nie', 'neg_float'],
                  ['map', 'int'], ['map', 'str', 'float'], ['one', 'neg_float'], ['tup', 'dbl_int'],
-                 ['one', 'inc_int'], ['one', 'tag_str'], ['seq', 'inc_int', 'dbl_int'], ['seq', 'tag_str', 'inc_int']]
+                 ['one', 'inc_int'], ['one', 'tag_str'], ['seq', 'inc_int', 'dbl_int'], ['seq', 'tag_str', 'inc_int'],
+                 ['one', 'list_int'], ['one', 'list_int'], ['seq', 'list_int', 'dict_str_int'], ['one', 'dict_str_int']]
 CLASS_CUSTOMS = [None, None, ['one', 'dbl_int'], ['one', 'upper_str'], ['seq', 'neg_float', 'dbl_int'],
-                 ['one', 'inc_int'], ['one', 'tag_str'], ['seq', 'inc_int', 'upper_str']]
+                 ['one', 'inc_int'], ['one', 'tag_str'], ['seq', 'inc_int', 'upper_str'], ['one', 'list_int']]
 FAULTY_SPECS = [['one', 'faulty_dbl_int'], ['seq', 'faulty_upper_str', 'dbl_int'], ['seq', 'defer_ni', 'faulty_dbl_int']]
 PANE_MODULES = ('pane.convert', 'pane.converters', 'pane.classes', 'pane.types', 'pane.util', 'pane.io',
                 'pane.annotations', 'pane.field', 'pane.errors', 'pane.addons.numpy')
@@ -137,6 +138,7 @@ def gen_knobs(rk, cls):
         'faults': rk.random() < 0.3,
         'valid_p': rk.choice([0.6, 0.8, 0.95]),
         'gc_eager': rk.random() < 0.3,
+        'pristine_p': rk.choice([0.0, 0.1, 0.1, 0.3]),
     }
     kn['hpair'] = None
     if kn['mix'] == 'handler' or rk.random() < 0.25:
@@ -482,7 +484,12 @@ class Exec:
         self.world.faulty = tg.make_faulty_pool()
         self.insts = {}
         self.hdicts = {}
+        self.hdict_entries = {}
         self.inst_src = {}
+        self.inst_src_enc = {}
+        self.pristine = None
+        self._inline_holder = None
+        self.oracle_rng = Streams(plan['seed']).rng('oracle')
         self.root_asts = {}
         self.def_history = []
         self.violation = None
@@ -495,10 +502,12 @@ class Exec:
     def count(self, k, n=1):
         self.counters[k] = self.counters.get(k, 0) + n
 
-    def setup(self):
-        gc.collect()
+    def setup(self, light=False):
+        if not light:
+            gc.collect()
         gc.disable()
-        self.alloc.calibrate()
+        if not light:
+            self.alloc.calibrate()
         self.seams.install_id(self.alloc.sim_id)
         if self.knobs.get('lru'):
             self.lru = self.seams.make_lru(self.knobs['lru'])
@@ -541,7 +550,7 @@ class Exec:
             if fresh:
                 s.bind_mc(saved)
 
-    def compare(self, what, mk, deps=()):
+    def compare(self, what, mk, deps=(), cs=None):
         """
         mk(world, insts) -> callable performing the call on the objects of that world.
         The outcome against the live memo must equal (1) the outcome of the same call on the same
@@ -589,7 +598,74 @@ class Exec:
                                     f"{what}: with history {self._short(real_fp)} but on freshly defined, equivalent "
                                     f"type objects {self._short(fresh_fp)}")
             w2.clear()
+        if cs is not None and self.pristine is not None and self.oracle_rng.random() < self.knobs.get('pristine_p', 0.3):
+            fp3 = self.pristine.call(self.pristine_request(cs, deps))
+            self.count('pristine_process_compared')
+            self.trace.add('pristine', h64(canon(order_free(fp3))) % 10**9 if fp3 is not None else None)
+            if fp3 is not None and real_fp != fp3:
+                raise Violation('history_dependent_process_state',
+                                f"{what}: with history {self._short(real_fp)} but in a process that has never converted "
+                                f"anything else {self._short(fp3)}")
         return real_fp
+
+    def pristine_request(self, cs, deps):
+        return {'plan_stub': {'prop': PROP, 'seed': self.plan['seed'], 'cls': self.plan['cls'], 'knobs': self.knobs, 'ops': []},
+                'def_history': self.def_history, 'root_asts': self.root_asts, 'inst_src': self.inst_src_enc,
+                'hdicts': self.hdict_entries, 'cs': cs, 'deps': [list(d) for d in deps]}
+
+    def mk_from_cs(self, cs):
+        """Build the call from its JSON description (used on this side and in the pristine-process oracle)."""
+        pane = self.pane
+        conv_mod = self.seams.convert_mod
+        kind = cs['kind']
+        H = self.handlers(cs.get('custom'))
+        if kind == 'convert':
+            root, data = cs['root'], tg.dec(cs['data'])
+
+            def mk(world, insts):
+                T = world.refs[root]
+                return lambda: pane.from_data(data, T, custom=H)
+            return mk
+        if kind == 'inline':
+            ast, data = cs['t'], tg.dec(cs['data'])
+            real_world, holder = self.world, self._inline_holder
+
+            def mk(world, insts):
+                T = holder['T'] if (world is real_world and holder is not None) else tg.build(ast, world)
+                return lambda: pane.from_data(data, T, custom=H)
+            return mk
+        if kind == 'lookup':
+            root = cs['root']
+
+            def mk(world, insts):
+                T = world.refs[root]
+
+                def call():
+                    conv = conv_mod.make_converter(T, conv_mod.ConverterHandlers.make(H))
+                    return [type(conv).__name__, conv.expected(), conv.expected(True)]
+                return call
+            return mk
+        if kind == 'serialise':
+            name, root, mode = cs['inst'], cs.get('root'), cs['mode']
+
+            def mk(world, insts):
+                x = insts[name]
+                if mode == 'infer':
+                    return lambda: pane.into_data(x, custom=H)
+                T = world.refs[root]
+                if mode == 'typed':
+                    return lambda: pane.into_data(x, T, custom=H)
+                return lambda: pane.convert(x, T, custom=H)
+            return mk
+        if kind == 'construct':
+            root = cs['root']
+            kwargs = {k: tg.dec(v) for (k, v) in cs['kwargs'].items()}
+
+            def mk(world, insts):
+                T = world.refs[root]
+                return lambda: T(**kwargs)
+            return mk
+        raise HarnessError(f"unknown call spec {cs!r}")
 
     def fresh_world(self, deps):
         """Replay the definitional history (no conversions) that `deps` depend on into a pristine world."""
@@ -729,9 +805,13 @@ class Exec:
             return self.hdicts.get(spec[1])
         return tg.build_handlers(spec, self.world.faulty)
 
-    def op_mkdict(self, i, op):
+    def _dict_from_entries(self, entries):
         convs = tg._custom_converters()
-        self.hdicts[op['name']] = {tg.SCALARS[ty]: convs[cn] for (ty, cn) in op['entries']}
+        return {tg.SCALARS[ty]: convs[cn] for (ty, cn) in entries}
+
+    def op_mkdict(self, i, op):
+        self.hdicts[op['name']] = self._dict_from_entries(op['entries'])
+        self.hdict_entries[op['name']] = op['entries']
         self.trace.add('mkdict', i, op['name'])
 
     def op_mutdict(self, i, op):
@@ -739,9 +819,9 @@ class Exec:
         if d is None:
             self.trace.add('skip', i)
             return
-        convs = tg._custom_converters()
         d.clear()
-        d.update({tg.SCALARS[ty]: convs[cn] for (ty, cn) in op['entries']})
+        d.update(self._dict_from_entries(op['entries']))
+        self.hdict_entries[op['name']] = op['entries']
         self.count('handler_dict_mutated')
         self.trace.add('mutdict', i, op['name'])
 
@@ -751,6 +831,7 @@ class Exec:
             return
         free0 = len(self.alloc.free)
         self.alloc.release_literal(self.hdicts, op['name'])
+        self.hdict_entries.pop(op['name'], None)
         self.trace.add('dropdict', i, op['name'], len(self.alloc.free) - free0)
 
     def op_construct(self, i, op):
@@ -758,12 +839,8 @@ class Exec:
         if root not in self.world.refs:
             self.trace.add('skip', i)
             return
-        kwargs = {k: tg.dec(v) for (k, v) in op['kwargs'].items()}
-
-        def mk(world, insts):
-            T = world.refs[root]
-            return lambda: T(**kwargs)
-        self.compare(f"<{root}>(**kwargs) [constructor]", mk, deps=[('root', root)])
+        cs = {'kind': 'construct', 'root': root, 'kwargs': op['kwargs']}
+        self.compare(f"<{root}>(**kwargs) [constructor]", self.mk_from_cs(cs), deps=[('root', root)], cs=cs)
         self.count('op_construct')
 
     def op_defclass(self, i, op):
@@ -819,15 +896,9 @@ class Exec:
         if op['root'] not in self.world.refs:
             self.trace.add('skip', i)
             return
-        H = self.handlers(op['custom'])
-        data = tg.dec(op['data'])
-        pane = self.pane
         root = op['root']
-
-        def mk(world, insts):
-            T = world.refs[root]
-            return lambda: pane.from_data(data, T, custom=H)
-        self.compare(f"from_data(<{root}>, custom={op['custom']})", mk, deps=[('root', root)])
+        cs = {'kind': 'convert', 'root': root, 'data': op['data'], 'custom': op['custom']}
+        self.compare(f"from_data(<{root}>, custom={op['custom']})", self.mk_from_cs(cs), deps=[('root', root)], cs=cs)
         self.count('op_convert')
 
     def op_inline(self, i, op):
@@ -838,19 +909,15 @@ class Exec:
         if holder['T'] is None:
             self.trace.add('skip', i, 'build-raised')
             return
-        H = self.handlers(op['custom'])
-        data = tg.dec(op['data'])
-        pane = self.pane
-        real_world = self.world
-        ast = op['t']
-
-        def mk(world, insts):
-            T = holder['T'] if world is real_world else tg.build(ast, world)
-            return lambda: pane.from_data(data, T, custom=H)
+        cs = {'kind': 'inline', 't': op['t'], 'data': op['data'], 'custom': op['custom']}
+        self._inline_holder = holder
+        mk = self.mk_from_cs(cs)
+        # the pristine-process oracle cannot see roots referenced by name unless they are dependencies
         try:
-            self.compare(f"from_data(<inline {canon(op['t'])[:80]}>, custom={op['custom']})", mk, deps=[('ast', ast)])
+            self.compare(f"from_data(<inline {canon(op['t'])[:80]}>, custom={op['custom']})", mk, deps=[('ast', op['t'])], cs=cs)
         finally:
             mk = None
+            self._inline_holder = None
             self._release(holder, 'T')
         self.count('op_inline')
 
@@ -858,66 +925,44 @@ class Exec:
         if op['root'] not in self.world.refs:
             self.trace.add('skip', i)
             return
-        H = self.handlers(op['custom'])
-        conv_mod = self.seams.convert_mod
         root = op['root']
-
-        def mk(world, insts):
-            T = world.refs[root]
-
-            def call():
-                mc = conv_mod.make_converter
-                conv = mc(T, conv_mod.ConverterHandlers.make(H))
-                return [type(conv).__name__, conv.expected(), conv.expected(True)]
-            return call
-        self.compare(f"make_converter(<{root}>, custom={op['custom']}).expected()", mk, deps=[('root', root)])
+        cs = {'kind': 'lookup', 'root': root, 'custom': op['custom']}
+        self.compare(f"make_converter(<{root}>, custom={op['custom']}).expected()", self.mk_from_cs(cs), deps=[('root', root)], cs=cs)
         self.count('op_lookup')
 
     def op_keep(self, i, op):
         if op['root'] not in self.world.refs:
             self.trace.add('skip', i)
             return
-        data = tg.dec(op['data'])
-        pane = self.pane
         root = op['root']
-
-        def mk(world, insts):
-            T = world.refs[root]
-            return lambda: pane.from_data(data, T)
-        fp = self.compare(f"from_data(<{root}>) [keep]", mk, deps=[('root', root)])
+        cs = {'kind': 'convert', 'root': root, 'data': op['data'], 'custom': None}
+        fp = self.compare(f"from_data(<{root}>) [keep]", self.mk_from_cs(cs), deps=[('root', root)], cs=cs)
         if fp[0] == 'ok':
             try:
-                self.insts[op['as']] = pane.from_data(data, self.world.refs[root])
+                data = tg.dec(op['data'])
+                self.insts[op['as']] = self.pane.from_data(data, self.world.refs[root])
                 self.inst_src[op['as']] = (root, data)
+                self.inst_src_enc[op['as']] = [root, op['data']]
             except Exception:
                 pass
 
     def op_serialise(self, i, op):
-        pane = self.pane
         if op['inst'] not in self.insts:
             self.trace.add('skip', i)
             return
-        H = self.handlers(op['custom'])
         name, root = op['inst'], op['root']
         have_T = root in self.world.refs
         deps = [('inst', name)] + ([('root', root)] if have_T else [])
         if op.get('infer') or not have_T:
             self.count('serialiser_inferred_from_runtime_type')
-
-            def mk(world, insts):
-                x = insts[name]
-                return lambda: pane.into_data(x, custom=H)
-            self.compare(f"into_data(<{name}>, custom={op['custom']})", mk, deps=deps)
+            cs = {'kind': 'serialise', 'inst': name, 'root': None, 'mode': 'infer', 'custom': op['custom']}
+            self.compare(f"into_data(<{name}>, custom={op['custom']})", self.mk_from_cs(cs), deps=deps, cs=cs)
         else:
-            def mk(world, insts):
-                x, T = insts[name], world.refs[root]
-                return lambda: pane.into_data(x, T, custom=H)
-            self.compare(f"into_data(<{name}>, <{root}>, custom={op['custom']})", mk, deps=deps)
+            cs = {'kind': 'serialise', 'inst': name, 'root': root, 'mode': 'typed', 'custom': op['custom']}
+            self.compare(f"into_data(<{name}>, <{root}>, custom={op['custom']})", self.mk_from_cs(cs), deps=deps, cs=cs)
         if op.get('roundtrip') and have_T:
-            def mk2(world, insts):
-                x, T = insts[name], world.refs[root]
-                return lambda: pane.convert(x, T, custom=H)
-            self.compare(f"convert(<{name}>, <{root}>, custom={op['custom']})", mk2, deps=deps)
+            cs = {'kind': 'serialise', 'inst': name, 'root': root, 'mode': 'roundtrip', 'custom': op['custom']}
+            self.compare(f"convert(<{name}>, <{root}>, custom={op['custom']})", self.mk_from_cs(cs), deps=deps, cs=cs)
         self.count('op_serialise')
 
     def op_subscript(self, i, op):
@@ -974,11 +1019,8 @@ class Exec:
                                                  f"{self._short(a)} vs {self._short(b)}")
         # and the ordinary history check on the memoised class
         rname = op['name']
-
-        def mk(world, insts):
-            T = world.refs[rname]
-            return lambda: pane.from_data(data, T)
-        self.compare(f"from_data(<{rname}>) [subscript]", mk, deps=[('root', rname)])
+        cs = {'kind': 'convert', 'root': rname, 'data': op['data'], 'custom': None}
+        self.compare(f"from_data(<{rname}>) [subscript]", self.mk_from_cs(cs), deps=[('root', rname)])
 
     def _release(self, holder, key):
         obj = holder[key]
@@ -1038,12 +1080,17 @@ def tg_flat(p):
 def execute(plan, want_trace=False) -> dict:
     if plan['cls'] == 'threads':
         return execute_threads(plan, want_trace)
+    from .kernel import PristineServer
+    srv = PristineServer(pristine_eval) if plan['knobs'].get('pristine_p', 0.3) > 0 else None
     ex = Exec(plan)
+    ex.pristine = srv
     try:
         ex.setup()
         ex.run()
     finally:
         ex.teardown()
+        if srv is not None:
+            srv.close()
     a = ex.alloc
     c = ex.counters
     c['sim_id_calls'] = a.calls
@@ -1057,6 +1104,37 @@ def execute(plan, want_trace=False) -> dict:
     if want_trace:
         res['trace'] = ex.trace.events
     return res
+
+
+def pristine_eval(req):
+    """Runs in a worker forked from the pristine oracle server: no conversion has ever happened in this process."""
+    ex = Exec(req['plan_stub'])
+    ex.setup(light=True)
+    try:
+        ex.def_history = req['def_history']
+        ex.root_asts = req['root_asts']
+        for op in ex.def_history:
+            if op['op'] == 'defclass':
+                ex.world.class_specs[op['spec']['name']] = op['spec']
+            elif op['op'] == 'defenum':
+                ex.world.enum_specs[op['spec']['name']] = op['spec']
+        ex.inst_src = {k: (v[0], tg.dec(v[1])) for (k, v) in req['inst_src'].items()}
+        ex.hdicts = {k: ex._dict_from_entries(v) for (k, v) in req['hdicts'].items()}
+        mk = ex.mk_from_cs(req['cs'])
+        fw = ex.fresh_world([tuple(d) for d in req['deps']])
+        if fw is None:
+            return None
+        (w2, i2) = fw
+        try:
+            fn2 = mk(w2, i2)
+        except HarnessError:
+            raise
+        except Exception:
+            return None
+        fp, _ = ex.side(fn2, fresh=True)
+        return fp
+    finally:
+        ex.teardown()
 
 
 def run_one(cfg, item):
@@ -1545,7 +1623,7 @@ ASSUMPTIONS = [
 
 def tier_config(tier):
     if tier == 'quick':
-        return {'classes': [('norecycle', 1500), ('recycle', 2500), ('lru', 1000), ('threads', 2500)], 'chunk': 25, 'selftest_n': 320,
+        return {'classes': [('norecycle', 1500), ('recycle', 2500), ('lru', 1000), ('threads', 2500)], 'chunk': 25, 'selftest_n': 200,
                 'sample': 1, 'hang_s': 240}
     return {'classes': [('norecycle', 3000), ('recycle', 5000), ('lru', 2000), ('threads', 6000)], 'chunk': 25, 'selftest_n': 600,
             'sample': 1, 'hang_s': 900, 'repeat': True, 'budget_s': 900}
